@@ -13,9 +13,12 @@ def IfCond.exprs : IfCond → List Expr
 mutual
 def IfStmt.exprs : IfStmt → List Expr
   | .mk cond body els elif =>
+    -- with both an else body and an else-if (rule B10 violated) the analyzer ignores the else-if
     cond.exprs ++ IfBodies.exprs body ++
-    (match els with | some eb => IfBodies.exprs eb | none => []) ++
-    (match elif with | some ei => IfStmt.exprs ei | none => [])
+    (match els, elif with
+     | some eb, _ => IfBodies.exprs eb
+     | none, some ei => IfStmt.exprs ei
+     | none, none => [])
 def IfBodies.exprs : IfBodies → List Expr
   | .ifb l => IfBodyStmt.exprsL l
   | .loopb l => IfLoopStmt.exprsL l
